@@ -1,15 +1,17 @@
 /-
-Model of `tokio_util::time::DelayQueue<u64>` as tarpc uses it (trusted library semantics, validated
-by the correspondence runs only).  Time is in nanoseconds since the queue's `start`, which the
-harness aligns with the runtime's start; the queue works at millisecond granularity:
+Model of `tokio_util::time::DelayQueue<u64>` (tokio-util 0.7.19) as tarpc uses it — trusted library
+semantics, validated by the correspondence runs only.  Time is in nanoseconds since the queue's
+`start`, which the harness aligns with the runtime's start; the queue works in milliseconds.
 
-* `insert now timeout`: `when = max (ceilMs (now + timeout)) wheelElapsed`; if `when ≤ wheelElapsed`
-  the entry goes on the LIFO `expired` stack; if `when - wheelElapsed > 2^36 - 1` the real code
-  panics (`invalid deadline`); otherwise it is stored in the wheel.
-* `pollExpired now`: pops the `expired` stack first; otherwise the entry with the smallest `when`
-  fires iff `when` ms have passed, and the wheel's `elapsed` moves to that `when`.
-Entries armed for the same millisecond come out in an order that depends on the wheel's levels;
-the model uses insertion order and the generators keep armed milliseconds distinct.
+The hashed timer wheel is emulated faithfully (6 levels × 64 slots, each slot a LIFO stack, one-level
+cascades), because the order in which entries armed for the same millisecond come out — and which
+of several elapsed entries a single poll yields — is observable through tarpc:
+
+* `insert now timeout`: `when = max (ceilMs (now + timeout)) elapsed`; `when ≤ elapsed` ⇒ the entry
+  goes on the LIFO `expired` stack; `when - elapsed > 2^36 - 1` ⇒ the real code panics
+  (`invalid deadline`); otherwise it is pushed on the slot `level_for (elapsed, when)` selects.
+* `pollExpired now`: pops the `expired` stack first; otherwise, once the `delay` (a `Sleep` until the
+  wheel's next expiration) has elapsed, polls the wheel at the delay's deadline.
 -/
 namespace TarpcModel
 
@@ -22,17 +24,22 @@ def floorMs (ns : Nat) : Nat := ns / nsPerMs
 def delayQMaxMs : Nat := 2 ^ 36 - 1
 
 structure DqEntry where
-  key  : Nat
-  val  : Nat        -- the request id
+  key    : Nat
+  val    : Nat        -- the request id
   whenMs : Nat
+  level  : Nat := 0   -- wheel level the entry currently sits at
+  seq    : Nat := 0   -- push order within the wheel (larger = pushed later = nearer the top)
 deriving Repr, DecidableEq
 
 structure DelayQ where
-  entries : List DqEntry := []     -- in the wheel, insertion order
+  entries : List DqEntry := []     -- in the wheel
   expired : List DqEntry := []     -- already-elapsed on insert; head = top of the stack
-  wheelElapsed : Nat := 0
+  wheelElapsed : Nat := 0          -- `wheel.elapsed`
+  wheelNow : Nat := 0              -- `DelayQueue::wheel_now`
+  delay   : Option Nat := none     -- deadline (ms) of the `Sleep`, if any
+  seqCtr  : Nat := 0
   nextKey : Nat := 0
-  /-- the owner polled and got `Pending`/`None`; an insert or an emptying remove wakes it -/
+  /-- the owner polled and got `Pending`/`None`; an earlier insert or an emptying remove wakes it -/
   waker : Bool := false
 deriving Repr
 
@@ -40,6 +47,84 @@ namespace DelayQ
 
 def len (q : DelayQ) : Nat := q.entries.length + q.expired.length
 def isEmpty (q : DelayQ) : Bool := q.entries.isEmpty && q.expired.isEmpty
+
+/-! ### the wheel -/
+
+def slotRange (level : Nat) : Nat := 64 ^ level
+def levelRange (level : Nat) : Nat := 64 * slotRange level
+def slotFor (when level : Nat) : Nat := (when / slotRange level) % 64
+
+/-- index of the most significant set bit (0 for 0) -/
+def msb (n : Nat) : Nat := Nat.log2 n
+
+def levelFor (elapsed when : Nat) : Nat :=
+  let masked := (elapsed ^^^ when) ||| 63
+  let masked := if masked ≥ delayQMaxMs then delayQMaxMs - 1 else masked
+  msb masked / 6
+
+structure Expiration where
+  level : Nat
+  slot : Nat
+  deadline : Nat
+deriving Repr
+
+/-- `Level::next_expiration`. -/
+def levelNextExpiration (q : DelayQ) (level : Nat) : Option Expiration :=
+  let here := q.entries.filter (·.level == level)
+  if here.isEmpty then none
+  else
+    let now := q.wheelElapsed
+    let nowSlot := (now / slotRange level) % 64
+    -- the occupied slot nearest to `nowSlot` going forward (rotation)
+    let dist (e : DqEntry) : Nat := (slotFor e.whenMs level + 64 - nowSlot) % 64
+    let best := here.foldl (fun acc e => if dist e < acc then dist e else acc) 64
+    let slot := (best + nowSlot) % 64
+    let levelStart := now - now % levelRange level
+    let deadline := levelStart + slot * slotRange level
+    let deadline := if deadline < now then deadline + levelRange level else deadline
+    some { level := level, slot := slot, deadline := deadline }
+
+def nextExpiration (q : DelayQ) : Option Expiration :=
+  (List.range 6).findSome? (levelNextExpiration q)
+
+/-- top of the stack of `(level, slot)`: the entry pushed last -/
+def slotTop (q : DelayQ) (level slot : Nat) : Option DqEntry :=
+  (q.entries.filter (fun e => e.level == level && slotFor e.whenMs level == slot)).foldl
+    (fun acc e => match acc with
+      | none => some e
+      | some a => if e.seq > a.seq then some e else some a) none
+
+/-- `poll_expiration` for a level ≥ 1 slot: pop everything (top first) and push one level down. -/
+def cascade : Nat → DelayQ → Nat → Nat → DelayQ
+  | 0, q, _, _ => q
+  | fuel + 1, q, level, slot =>
+      match slotTop q level slot with
+      | none => q
+      | some e =>
+          let e' := { e with level := level - 1, seq := q.seqCtr }
+          cascade fuel { q with entries := (q.entries.filter (·.key != e.key)) ++ [e'], seqCtr := q.seqCtr + 1 } level slot
+
+/-- `Wheel::poll`. -/
+def wheelPoll : Nat → DelayQ → Nat → DelayQ × Option DqEntry
+  | 0, q, _ => (q, none)
+  | fuel + 1, q, now =>
+      match nextExpiration q with
+      | none => ({ q with wheelElapsed := max q.wheelElapsed now }, none)
+      | some ex =>
+          if ex.deadline > now then ({ q with wheelElapsed := max q.wheelElapsed now }, none)
+          else if ex.level == 0 then
+            match slotTop q 0 ex.slot with
+            | some e => ({ q with entries := q.entries.filter (·.key != e.key) }, some e)
+            | none => (q, none)
+          else
+            let q := cascade (q.entries.length + 1) q ex.level ex.slot
+            wheelPoll fuel { q with wheelElapsed := max q.wheelElapsed ex.deadline } now
+
+def wheelFuel (q : DelayQ) : Nat := (q.entries.length + 1) * 8
+
+def nextDeadline (q : DelayQ) : Option Nat := (nextExpiration q).map (·.deadline)
+
+/-! ### the queue -/
 
 inductive InsertRes where
   | ok (key : Nat)
@@ -49,37 +134,37 @@ deriving Repr, DecidableEq
 /-- Returns the new queue, the result, and whether the stored waker was woken. -/
 def insert (q : DelayQ) (now timeout : Nat) (val : Nat) : DelayQ × InsertRes × Bool :=
   let when := max (ceilMs (now + timeout)) q.wheelElapsed
-  let e : DqEntry := { key := q.nextKey, val := val, whenMs := when }
-  if when ≤ q.wheelElapsed then
-    -- `InsertError::Elapsed`: straight onto the expired stack.  `should_set_delay` is computed
-    -- against the current delay; the wake only matters for spurious-wake accounting.
-    ({ q with expired := e :: q.expired, nextKey := q.nextKey + 1 }, .ok q.nextKey, false)
-  else if when - q.wheelElapsed > delayQMaxMs then
-    (q, .panic, false)
+  if when > q.wheelElapsed && when - q.wheelElapsed > delayQMaxMs then (q, .panic, false)
   else
-    let earliest := q.entries.all (fun x => when < x.whenMs)
-    let woke := earliest && q.waker
-    ({ q with entries := q.entries ++ [e], nextKey := q.nextKey + 1,
-              waker := if woke then false else q.waker }, .ok q.nextKey, woke)
+    let key := q.nextKey
+    let q1 : DelayQ :=
+      if when ≤ q.wheelElapsed then
+        { q with expired := { key := key, val := val, whenMs := when } :: q.expired, nextKey := key + 1 }
+      else
+        { q with entries := q.entries ++ [{ key := key, val := val, whenMs := when,
+                                            level := levelFor q.wheelElapsed when, seq := q.seqCtr }],
+                 seqCtr := q.seqCtr + 1, nextKey := key + 1 }
+    let shouldSet : Bool := match q.delay with
+      | some dl => decide (max dl q.wheelElapsed > when)
+      | none => true
+    if shouldSet then
+      ({ q1 with delay := some when, waker := false }, .ok key, q.waker)
+    else (q1, .ok key, false)
 
 /-- `remove(&key)`; the real call panics on an unknown key (`none` here). -/
 def remove (q : DelayQ) (key : Nat) : Option (DelayQ × Bool) :=
   if q.entries.any (·.key == key) || q.expired.any (·.key == key) then
+    let prev := nextDeadline q
     let q' := { q with entries := q.entries.filter (·.key != key),
                        expired := q.expired.filter (·.key != key) }
+    let next := nextDeadline q'
+    let q' := if prev != next then { q' with delay := next } else q'
     let woke := q'.isEmpty && q.waker
     some ({ q' with waker := if woke then false else q.waker }, woke)
   else none
 
-def clear (q : DelayQ) : DelayQ := { q with entries := [], expired := [], wheelElapsed := 0 }
-
-/-- The entry with the smallest `whenMs` (first such in insertion order). -/
-def minEntry : List DqEntry → Option DqEntry
-  | [] => none
-  | e :: es =>
-      match minEntry es with
-      | none => some e
-      | some m => if m.whenMs < e.whenMs then some m else some e
+def clear (q : DelayQ) : DelayQ :=
+  { q with entries := [], expired := [], wheelElapsed := 0, delay := none }
 
 inductive PollRes where
   | pending
@@ -87,23 +172,38 @@ inductive PollRes where
   | expired (e : DqEntry)
 deriving Repr, DecidableEq
 
+/-- the loop of `poll_idx` -/
+def pollIdx : Nat → DelayQ → Nat → DelayQ × PollRes
+  | 0, q, _ => (q, .pending)
+  | fuel + 1, q, now =>
+      match q.delay with
+      | some dl =>
+          if now < dl * nsPerMs then ({ q with waker := true }, .pending)
+          else
+            let q := { q with wheelNow := dl }
+            let (q, r) := wheelPoll (wheelFuel q) q q.wheelNow
+            let q := { q with delay := nextDeadline q }
+            match r with
+            | some e => (q, .expired e)
+            | none => if q.delay.isNone then ({ q with waker := true }, .none) else pollIdx fuel q now
+      | none =>
+          let (q, r) := wheelPoll (wheelFuel q) q q.wheelNow
+          let q := { q with delay := nextDeadline q }
+          match r with
+          | some e => (q, .expired e)
+          | none => if q.delay.isNone then ({ q with waker := true }, .none) else pollIdx fuel q now
+
 def pollExpired (q : DelayQ) (now : Nat) : DelayQ × PollRes :=
+  let q := { q with waker := true }       -- `poll_expired` stores the caller's waker first
   match q.expired with
   | e :: rest => ({ q with expired := rest }, .expired e)
-  | [] =>
-      match minEntry q.entries with
-      | none => ({ q with waker := true }, .none)
-      | some m =>
-          if m.whenMs * nsPerMs ≤ now then
-            ({ q with entries := q.entries.filter (·.key != m.key),
-                      wheelElapsed := max q.wheelElapsed m.whenMs }, .expired m)
-          else ({ q with waker := true }, .pending)
+  | [] => pollIdx (wheelFuel q + 8) q now
 
-/-- The next instant (ns) at which `pollExpired` can yield something, if any. -/
+/-- The instant (ns) at which the registered `Sleep` fires, if any. -/
 def nextFire (q : DelayQ) : Option Nat :=
   match q.expired with
   | _ :: _ => some 0
-  | [] => (minEntry q.entries).map (fun m => m.whenMs * nsPerMs)
+  | [] => q.delay.map (· * nsPerMs)
 
 end DelayQ
 end TarpcModel
